@@ -261,9 +261,11 @@ func cmdCheck(args []string) int {
 			var files []string
 			rfs := map[string]*ReplayFile{}
 			for _, s := range res.Samples {
-				if s.RandN > 0 {
+				if s.RandN > 0 && !s.Seeded {
 					continue // random draws cannot be forced natively
 				}
+				// (seeded-rand harnesses assert equality of two seeded runs: the native
+				// run uses the real generator and must pass just the same)
 				rf := &ReplayFile{Property: *prop, Harness: hs.Func, InCmd: hs.InCmd, Inputs: s.Inputs, Params: params, Expect: "ok", Observe: s.Observe}
 				p, err := writeReplay(dir, rf)
 				if err == nil {
